@@ -48,6 +48,12 @@ def _relname(rel):
 
 def guard_tables(chk, lib, rule, want_off=True, want_on=False):
     """decision tables of the three strategies: (flag, in-range scenario) -> Err(OutOfBounds) | computes"""
+    import ndi.kernels as _k
+    with _k.strict():
+        return _guard_tables(chk, lib, rule, want_off, want_on)
+
+
+def _guard_tables(chk, lib, rule, want_off=True, want_on=False):
     n = 0
     rows = []
 
